@@ -99,6 +99,29 @@ def pools(ctx, count):
     return tagged
 
 
+def sibling(rng, g):
+    """a well-formed game that differs from g by a small regrouping: the last transition of a player state moves to the
+    front of the next state when that one belongs to the same player (the flattened list of transitions is unchanged);
+    otherwise two same-owner rows are exchanged. A cache or memo keyed on too little would confuse the two."""
+    g2 = copy.deepcopy(g)
+    n = len(g2["players"])
+    cand = [s for s in range(n - 1) if g2["players"][s] == g2["players"][s + 1] and g2["players"][s] != PR
+            and len(g2["transition_list"][s]) >= 2
+            and g2["transition_list"][s][-1][0] not in [a for a, _ in g2["transition_list"][s + 1]]]
+    if cand:
+        s = rng.choice(cand)
+        t = g2["transition_list"][s].pop()
+        g2["transition_list"][s + 1].insert(0, t)
+        return g2
+    pairs = [(a, b) for a in range(1, n) for b in range(a + 1, n) if g2["players"][a] == g2["players"][b]
+             and g2["transition_list"][a] != g2["transition_list"][b]]
+    if pairs:
+        a, b = rng.choice(pairs)
+        g2["transition_list"][a], g2["transition_list"][b] = g2["transition_list"][b], g2["transition_list"][a]
+        return g2
+    return None
+
+
 def pick_group(rng, tagged, k):
     """k games: at least one solvable; failures likely"""
     by = {}
@@ -109,6 +132,13 @@ def pick_group(rng, tagged, k):
         c = rng.random()
         cls = "well-formed" if (i == 0 or c < 0.45) else ("malformed" if c < 0.75 else "unsolvable")
         out.append(rng.choice(by[cls]))
+    # sometimes one of the games gets a near-identical sibling in the same file
+    if rng.random() < 0.4:
+        wf = [i for i, (g, t) in enumerate(out) if t == "well-formed"]
+        if wf:
+            sib = sibling(rng, out[rng.choice(wf)][0])
+            if sib is not None and not c10.rewarded_player_cycle(sib):
+                out[rng.randrange(k)] = (sib, "well-formed")
     rng.shuffle(out)
     while True:
         names = rng.sample(NAMES, k)
@@ -280,12 +310,15 @@ def run(ctx):
         for n, g, t in dct:
             solo_keys.setdefault((n, game_key(g)), (n, g))
             base_keys.setdefault(game_key(g), g)
-    jobs = [dict(op="run_games", games=enc({n: g for n, g, _ in dct})) for dct in dicts]
+    # every batch and every solo run starts from freshly executed repository modules: state that leaks from one game
+    # into the next inside a batch then shows up as a difference from the solo run
+    jobs = [dict(op="run_games", games=enc({n: g for n, g, _ in dct}), fresh_modules=True) for dct in dicts]
     sk = list(solo_keys)
-    jobs += [dict(op="run_games", games=enc({solo_keys[k][0]: solo_keys[k][1]})) for k in sk]
+    jobs += [dict(op="run_games", games=enc({solo_keys[k][0]: solo_keys[k][1]}), fresh_modules=True) for k in sk]
     bk = list(base_keys)
     for k in bk:
-        jobs += [dict(op="solve", game=enc(base_keys[k]), prune=True), dict(op="solve", game=enc(base_keys[k]), prune=False)]
+        jobs += [dict(op="solve", game=enc(base_keys[k]), prune=True, fresh_modules=True),
+                 dict(op="solve", game=enc(base_keys[k]), prune=False, fresh_modules=True)]
     res = impl.run_cases(jobs, limit=30, tag="c12")
     nd = len(dicts)
     solo = {k: r for k, r in zip(sk, res[nd:nd + len(sk)])}
